@@ -18,7 +18,7 @@ def sz(tier, quick, thorough):
 
 # ------------------------------------------------------------------ C01
 def run_c01(tier, seed, res):
-    E.run_workload(res, "mon", "C01", sz(tier, 4000, 240000), tier, seed)
+    E.run_workload(res, "mon", "C01", sz(tier, 40000, 1200000), tier, seed)
     if tier == "thorough":
         E.run_workload(res, "asan", "C01", 20000, tier, seed + 1, env=ASAN_ENV)
     return {
@@ -41,7 +41,7 @@ ASAN_ENV = {"ASAN_OPTIONS": "halt_on_error=1:abort_on_error=1:detect_leaks=0:all
 
 # ------------------------------------------------------------------ C06
 def run_c06(tier, seed, res):
-    E.run_workload(res, "mon", "C06", sz(tier, 4000, 240000), tier, seed)
+    E.run_workload(res, "mon", "C06", sz(tier, 30000, 1000000), tier, seed)
     if tier == "thorough":
         E.run_workload(res, "asan", "C06", 20000, tier, seed + 1, env=ASAN_ENV)
     return {
@@ -52,13 +52,14 @@ def run_c06(tier, seed, res):
                      "categories_with_2+_candidates", "tag_ties", "tag_ngram_matched_at_rel_0", "tag_ngram_matched_at_rel_1",
                      "tag_ngram_matched_at_rel_2", "models_with_more_than_8_classes",
                      "tokens_with_candidate_scores_compared", "models_with_empty_char_boundary_model",
+                     "cases_with_previous_predictor_on_same_sentence", "models_whose_tag_models_have_no_category",
                      "models_with_empty_type_boundary_model"],
     }
 
 
 # ------------------------------------------------------------------ C14
 def run_c14(tier, seed, res):
-    E.run_workload(res, "mon", "C14", sz(tier, 3000, 120000), tier, seed)
+    E.run_workload(res, "mon", "C14", sz(tier, 20000, 600000), tier, seed)
     if tier == "thorough":
         E.run_workload(res, "asan", "C14", 10000, tier, seed + 1, env=ASAN_ENV)
     return {
@@ -75,9 +76,9 @@ def run_c14(tier, seed, res):
 
 # ------------------------------------------------------------------ C02
 def run_c02(tier, seed, res):
-    nmax = sz(tier, 8, 11)
+    nmax = sz(tier, 9, 12)
     E.run_workload(res, "mon", "C02x", 8 * nmax, tier, seed, chunks=8 * nmax)
-    E.run_workload(res, "mon", "C02r", sz(tier, 40000, 2000000), tier, seed)
+    E.run_workload(res, "mon", "C02r", sz(tier, 200000, 6000000), tier, seed)
     return {
         "rule": "exhaustive part: every label vector in {boundary, no boundary, unknown}^(n-1) for n <= %d x 4 text kinds x with/without "
                 "tags (case = one (n, kind, tags) combination); random part: n <= 60 with unknown density up to 60%%; tokens "
@@ -92,7 +93,7 @@ def run_c02(tier, seed, res):
 
 # ------------------------------------------------------------------ C03
 def run_c03(tier, seed, res):
-    E.run_workload(res, "mon", "C03", sz(tier, 60000, 1500000), tier, seed)
+    E.run_workload(res, "mon", "C03", sz(tier, 300000, 6000000), tier, seed)
     maxlen = sz(tier, 5, 7)
     n = sum(7 ** l for l in range(maxlen + 1))
     E.run_workload(res, "mon", "C03x", n, tier, seed)
@@ -111,7 +112,7 @@ def run_c03(tier, seed, res):
 
 # ------------------------------------------------------------------ C04
 def run_c04(tier, seed, res):
-    E.run_workload(res, "mon", "C04", sz(tier, 60000, 1500000), tier, seed)
+    E.run_workload(res, "mon", "C04", sz(tier, 300000, 6000000), tier, seed)
     return {
         "rule": "case = sentence with all three labels and tags on any character, tags drawn from an alphabet containing / - | space and "
                 "backslash; the written partial-annotation text is parsed by the reference parser and by the library and must give "
@@ -127,8 +128,8 @@ def run_c05(tier, seed, res):
     maxlen = sz(tier, 4, 5)
     n = sum(9 ** l for l in range(maxlen + 1))
     E.run_workload(res, "mon", "C05x", n, tier, seed)
-    E.run_workload(res, "mon", "C05r", sz(tier, 40000, 1000000), tier, seed)
-    E.run_workload(res, "mon", "C05h", sz(tier, 30000, 800000), tier, seed)
+    E.run_workload(res, "mon", "C05r", sz(tier, 200000, 4000000), tier, seed)
+    E.run_workload(res, "mon", "C05h", sz(tier, 200000, 4000000), tier, seed)
     return {
         "rule": "every string of length <= %d over {a, hiragana a, 4-byte kanji, space, /, backslash, -, |, NUL} and random hostile / valid / "
                 "single-edit-mutated strings go through the three constructors and through the three updates on a used sentence; "
@@ -145,7 +146,7 @@ def run_c05(tier, seed, res):
 
 # ------------------------------------------------------------------ C07
 def run_c07(tier, seed, res):
-    E.run_workload(res, "mon", "C07", sz(tier, 400, 12000), tier, seed, per_case_timeout=5.0)
+    E.run_workload(res, "mon", "C07", sz(tier, 1500, 40000), tier, seed, per_case_timeout=5.0)
     return {
         "rule": "case = one serialised model (generated via the mirror; case 0 = resources/model.bin): to_vec / write / short-write writer give "
                 "identical bytes; read / read_slice / 1..3-byte short reads with Interrupted re-serialise identically and predict like the "
@@ -162,7 +163,7 @@ def run_c07(tier, seed, res):
 
 # ------------------------------------------------------------------ C08
 def run_c08(tier, seed, res):
-    E.run_workload(res, "mon", "C08h", sz(tier, 30000, 1200000), tier, seed)
+    E.run_workload(res, "mon", "C08h", sz(tier, 40000, 1500000), tier, seed)
     E.run_workload(res, "mon", "C08t", sz(tier, 800, 20000), tier, seed, extra=["--threads", "16"], chunks=sz(tier, 8, 16), per_case_timeout=20.0)
     n_miri = sz(tier, 24, 512)
     E.run_miri(res, "C08t", n_miri, tier, seed, extra=["--tiny"], procs=n_miri, vary_scheduler_seed=True)
@@ -186,7 +187,7 @@ def run_c08(tier, seed, res):
 
 # ------------------------------------------------------------------ C15
 def run_c15(tier, seed, res):
-    E.run_workload(res, "mon", "C15", sz(tier, 40000, 1000000), tier, seed)
+    E.run_workload(res, "mon", "C15", sz(tier, 200000, 5000000), tier, seed)
     return {
         "rule": "case = sentence (texts with ZWJ sequences, regional indicators, combining marks, Hangul jamo, CR/LF/CRLF, runs of one type; "
                 "labels incl. unknown; 0..3 tag slots) x 9 filters (six character types, line breaks, grapheme clusters, pattern tagger with "
@@ -203,7 +204,7 @@ def run_c15(tier, seed, res):
 
 # ------------------------------------------------------------------ C09..C12 (trainer; hooks)
 def run_c09(tier, seed, res):
-    E.run_workload(res, "mon", "C09", sz(tier, 4000, 150000), tier, seed, per_case_timeout=5.0)
+    E.run_workload(res, "mon", "C09", sz(tier, 20000, 600000), tier, seed, per_case_timeout=5.0)
     return {
         "rule": "case = (char window, char n, type window, type n in 1..4 drawn independently, 1 in 10 with a window of 0; dictionary with "
                 "length bucket 1..5; one of the 8 solvers) x corpus of 2..12 short sentences (tokenized or partially annotated) over a small "
@@ -218,7 +219,7 @@ def run_c09(tier, seed, res):
 
 
 def run_c10(tier, seed, res):
-    E.run_workload(res, "mon", "C10", sz(tier, 8000, 300000), tier, seed)
+    E.run_workload(res, "mon", "C10", sz(tier, 40000, 1500000), tier, seed)
     return {
         "rule": "case = corpus mixing fully annotated, partially annotated and unannotated sentences x window / n-gram sizes 0..4 x dictionary; "
                 "the examples stored for the learner (read through the verif-hooks accessor after every add_example) must be exactly one per "
@@ -231,7 +232,7 @@ def run_c10(tier, seed, res):
 
 
 def run_c11(tier, seed, res):
-    E.run_workload(res, "mon", "C11", sz(tier, 4400, 176000), tier, seed, per_case_timeout=5.0)
+    E.run_workload(res, "mon", "C11", sz(tier, 22000, 704000), tier, seed, per_case_timeout=5.0)
     E.run_workload(res, "mon", "C11cli", sz(tier, 48, 1200), tier, seed, extra=cli_extra("C11"), per_case_timeout=20.0)
     return {
         "rule": "case = configuration (windows and n-gram sizes 0..4, bucket 1..5, solver = (case/11) mod 8) x corpus class = case mod 11 "
@@ -249,7 +250,7 @@ def run_c11(tier, seed, res):
 
 
 def run_c12(tier, seed, res):
-    E.run_workload(res, "mon", "C12", sz(tier, 4000, 150000), tier, seed, per_case_timeout=5.0)
+    E.run_workload(res, "mon", "C12", sz(tier, 20000, 600000), tier, seed, per_case_timeout=5.0)
     return {
         "rule": "case = tagged corpus (1..2 categories, absent tags, per-token preferred tag + noise so that single-tag and ambiguous tokens both "
                 "occur, partially annotated sentences, a tag dictionary with tokens absent from the corpus) x n-gram sizes 1..3 x solver; "
@@ -258,7 +259,7 @@ def run_c12(tier, seed, res):
                 "stored candidate scores = hook-logged quantised biases + weights over the reference tag features; "
                 "non-trivial iff an evaluation token with known tags was checked",
         "required": ["tokens_seen_with_tags", "tokens_only_in_tag_dictionary", "categories_with_single_tag",
-                     "categories_with_several_tags", "evaluation_tokens_with_known_tags",
+                     "categories_with_several_tags", "tokens_with_three_ambiguous_categories", "evaluation_tokens_with_known_tags",
                      "candidate_scores_compared_with_learned_classifier"],
     }
 
@@ -266,7 +267,7 @@ def run_c12(tier, seed, res):
 
 # ------------------------------------------------------------------ C17
 def run_c17(tier, seed, res):
-    E.run_workload(res, "mon", "C17", sz(tier, 1500, 60000), tier, seed, per_case_timeout=5.0)
+    E.run_workload(res, "mon", "C17", sz(tier, 6000, 200000), tier, seed, per_case_timeout=5.0)
     return {
         "rule": "case = generated KyTea binary file (char map incl. the six type letters and sometimes the bogus type byte 0x04, windows 1..4, "
                 "tries for char and type n-grams with reversed goto order and suffix outputs on non-final states, 0..8 dictionaries with "
@@ -291,8 +292,8 @@ def cli_extra(tag):
 
 
 def run_c19(tier, seed, res):
-    E.run_workload(res, "mon", "C19lib", sz(tier, 3000, 100000), tier, seed)
-    E.run_workload(res, "mon", "C19tool", sz(tier, 400, 12000), tier, seed, extra=cli_extra("C19"), per_case_timeout=10.0)
+    E.run_workload(res, "mon", "C19lib", sz(tier, 15000, 500000), tier, seed)
+    E.run_workload(res, "mon", "C19tool", sz(tier, 1200, 30000), tier, seed, extra=cli_extra("C19"), per_case_timeout=10.0)
     return {
         "rule": "library: case = generated model + new dictionary (words from the texts, some old words kept); after replace_dictionary the "
                 "score change at every boundary must equal contribution(new) - contribution(old) and the mirror of the edited model must equal "
@@ -307,8 +308,8 @@ def run_c19(tier, seed, res):
 
 
 def run_c20(tier, seed, res):
-    E.run_workload(res, "mon", "C20p", sz(tier, 60, 2400), tier, seed, extra=cli_extra("C20p"), per_case_timeout=30.0)
-    E.run_workload(res, "mon", "C20e", sz(tier, 150, 6000), tier, seed, extra=cli_extra("C20e"), per_case_timeout=20.0)
+    E.run_workload(res, "mon", "C20p", sz(tier, 150, 5000), tier, seed, extra=cli_extra("C20p"), per_case_timeout=30.0)
+    E.run_workload(res, "mon", "C20e", sz(tier, 400, 12000), tier, seed, extra=cli_extra("C20e"), per_case_timeout=20.0)
     return {
         "rule": "predict: case = generated model x input stream of 1..12 lines (empty lines, NUL, spaces, slashes, backslashes, half-width, interior CR) "
                 "x all 16 subsets of {--no-norm, --predict-tags, --scores, --tag-scores} each with a random --wsconst list; stdout of the real "
@@ -405,7 +406,7 @@ def run_c13(tier, seed, res):
         n_cases = 6000
     else:
         names = QUICK_FEATURE_SETS
-        n_cases = 1500
+        n_cases = 4000
     per_build = run_feature_matrix(res, names, n_cases, tier, seed)
     return {
         "rule": "the same seeded workload (generated models with/without tag models x texts, as for C01/C06) is executed by one binary per feature "
@@ -422,8 +423,8 @@ def run_c13(tier, seed, res):
 # ------------------------------------------------------------------ C16
 def run_c16(tier, seed, res):
     E.run_workload(res, "mon", "C16n", 272, tier, seed, chunks=32)
-    E.run_workload(res, "mon", "C16s", sz(tier, 30000, 1000000), tier, seed)
-    E.run_workload(res, "tantivy", "C16t", sz(tier, 1500, 60000), tier, seed)
+    E.run_workload(res, "mon", "C16s", sz(tier, 100000, 3000000), tier, seed)
+    E.run_workload(res, "tantivy", "C16t", sz(tier, 4000, 150000), tier, seed)
     return {
         "rule": "normaliser: ALL 1 112 064 Unicode scalar values (one character out, idempotent, equal to the transcribed table else identity) "
                 "plus random strings (per-character behaviour, character count); token stream: generated models x texts (empty, multi-byte, "
@@ -446,8 +447,8 @@ TSAN_ENV = {"TSAN_OPTIONS": "halt_on_error=1:abort_on_error=1:report_signal_unsa
 
 
 def run_c18(tier, seed, res):
-    E.run_workload(res, "mon", "C18u", sz(tier, 1500, 40000), tier, seed)
-    E.run_workload(res, "asan", "C18u", sz(tier, 600, 12000), tier, seed + 1, env=ASAN_ENV, per_case_timeout=8.0)
+    E.run_workload(res, "mon", "C18u", sz(tier, 6000, 150000), tier, seed)
+    E.run_workload(res, "asan", "C18u", sz(tier, 2000, 40000), tier, seed + 1, env=ASAN_ENV, per_case_timeout=8.0)
     names = C18_FEATURE_SETS if tier == "quick" else ["default"] + sorted(E.all_feature_sets().keys())
     build_many(["feat:" + n for n in names])
     for n in names:
@@ -478,7 +479,8 @@ def run_c18(tier, seed, res):
         "required": ["unsafe_surface_rounds", "char_ngram_occurrences", "type_ngram_occurrences", "dict_word_occurrences",
                      "tokens_with_tag_model", "filter_changed_something:ConcatGraphemeClustersFilter",
                      "filter_changed_something:SplitLinebreaksFilter", "sentences_with_escape_worthy_char_in_text",
-                     "predictors_with_tag_prediction", "feature_configurations_run_with_ub_checks", "predictions_in_feature_builds"],
+                     "predictors_with_tag_prediction", "feature_configurations_run_with_ub_checks", "predictions_in_feature_builds",
+                     "history_ops"],
         "assumptions": COMMON_ASSUMPTIONS + [
             "std's UB-precondition checks cover index/range arguments of the unchecked slice/str APIs, not character-boundary-ness (that is the crate's own debug_assert and the behavioural oracles)",
             "ASan sees heap/stack out-of-bounds and use-after-free in the Rust code only (liblinear is not instrumented); Miri runs only the tiny generator class",
